@@ -101,12 +101,12 @@ fn month_lines(ctx: &Ctx, tag: &str, years: Vec<i64>) -> usize {
 }
 
 pub fn run(ctx: &Ctx) -> usize {
-  let wins = day_windows(ctx, 801, 40, 200, 1);
+  let wins = day_windows(ctx, 801, 150, 200, 1);
   let a = walk_days(ctx, "Trace_C08", wins, day_line);
   let years: Vec<i64> = if ctx.quick() {
     let mut v: Vec<i64> = vec![1, 2, 3, 640, 641, 1582, 1583, 1644, 1960, 1984, 2023, 2024, 7275, 7276, 8716, 9493, 9997, 9998];
     let mut rng = ctx.rng(802);
-    for _ in 0..70 {
+    for _ in 0..400 {
       v.push(rng.range(2, 9998));
     }
     v
